@@ -1371,6 +1371,9 @@ func (in *Interp) rangeIter(x value, t types.Type) value {
 	case *hmap:
 		mt := under(t).(*types.Map)
 		it := &mapIter{in: in, m: x, kt: mt.Key(), vt: mt.Elem()}
+		if in.sch.race != nil && x != nil {
+			in.raceRead(x)
+		}
 		if x != nil {
 			it.keys = in.mapOrder(x)
 		}
